@@ -29,7 +29,7 @@ claim('C17', 'model_checking',
       '(a) Histories of send_with_reply (3 timeout classes), peer reply/error/duplicate/unknown-serial (immediate or queued behind a blocking wait), peer close, clock advance, cancel and block over up to 3 calls '
       'are explored breadth-first on the real connection with a virtual clock; after every event the completed flag, the notify count and the stolen reply of every call must match the model (exactly-once, own serial, cancelled never notified); '
       'serials must be non-zero and distinct, also across the seeded 32-bit wrap. (b) Two or three real threads (send+block, dispatch loop, cancel, close) plus the scripted peer are run under a cooperative scheduler hooked into every '
-      'mutex/condvar/poll operation; every schedule with at most k preemptions/environment deviations is executed and judged by the same model, with deadlock and livelock detection. (c) The same bodies run free under TSan. Peer replies may carry the serial number of another outstanding call; thread configurations also run with infinite timeouts, where a wait that misses its queued reply is a dead-lock.',
+      'mutex/condvar/poll operation; every schedule with at most k preemptions/environment deviations is executed and judged by the same model, with deadlock and livelock detection. (c) The same bodies run free under TSan. Peer replies may carry the serial number of another outstanding call; thread configurations also run with infinite timeouts, where a wait that misses its queued reply is a dead-lock. The peer may close unnoticed: reading the end-of-stream without dispatching, timers and dispatch are then separate operations.',
       'Scheduling points are the synchronisation operations (hook H3); unsynchronised accesses are only caught by the TSan pass, which is not exhaustive. Memory orderings weaker than SC are not modelled. More than 3 calls / 3 threads and larger preemption bounds are not covered.',
       'DESIGN.md section 4 C17')
 
